@@ -168,7 +168,8 @@ def check_c02(rep):
         run_instance(rep, "kary_" + sch, ps, actions=kary, depth=4 if quick else 5, ct_slots=("c1", "c2"), pt_slots=("p1",), msgs=[[1, 2, 3], [0, 16], [5]], extra_sample=2000 if quick else 20000)
     # impl -> spec: recorded seeded-random programs validated against Trace_HE.tla (DESIGN.md 4.5)
     import he_trace
-    for nm, ps in (("bfv", BFV), ("bgv", BGV), ("bfv_bigt", "bfv_8_12289_10,50,50,50"), ("bgv_mixed", "bgv_8_17_36,50,45,50")):
+    for nm, ps in (("bfv", BFV), ("bgv", BGV), ("bfv_bigt", "bfv_8_12289_10,50,50,50"), ("bgv_mixed", "bgv_8_17_36,50,45,50"), ("bfv16", "bfv_16_97_50,50,50,50"),
+                   ("bgv32", "bgv_32_193_50,44,50,50")):
         he_trace.run_trace(rep, nm, ps, nprogs=25 if quick else 400, length=80 if quick else 150)
     rep.assumptions += TRACE_ASSUME
     rep.assumptions += COMMON_ASSUME
@@ -187,7 +188,7 @@ def check_c03(rep):
         run_instance(rep, "ckks5", "ckks_8_0_40,40,40,40,40,40", actions=acts, depth=7, scales=(30, 38), extra_sample=30000)
         run_instance(rep, "ckks16", "ckks_16_0_45,35,45,45", actions=acts, depth=6, scales=(20, 33), extra_sample=30000)
     import he_trace
-    for nm, ps, sc in (("ckks", CKKS, (30, 20)), ("ckks_mixed", "ckks_8_0_30,50,40,45,50", (25,))):
+    for nm, ps, sc in (("ckks", CKKS, (30, 20)), ("ckks_mixed", "ckks_8_0_30,50,40,45,50", (25,)), ("ckks16", "ckks_16_0_40,40,40,40", (30,)), ("ckks64", "ckks_64_0_45,45,45", (30,))):
         he_trace.run_trace(rep, nm, ps, nprogs=25 if quick else 400, length=80 if quick else 150, scales=sc)
     rep.assumptions += TRACE_ASSUME
     rep.assumptions += COMMON_ASSUME + ["the error bound 2^nb is the deliberately loose closed form of HE.tla (Appendix B of DESIGN.md)"]
